@@ -281,6 +281,22 @@ def run(ctx):
             except Exception as e:
                 out = "raise:%s@%s" % (type(e).__name__, vrun.innermost_cerberus_frame(e))
             rp = {"good": common.jval(schema), "bad_allow_unknown": common.jval(bad_rules), "config": common.jval(cfg), "entry": "allow_unknown-setter", "kind": kind}
+            # ... and as the constructor's option
+            cases += 1
+            dist["entry_allow_unknown-constructor"] += 1
+            try:
+                pool.PoolValidator.clear_caches()
+                cerberus.Validator.clear_caches()
+                pool.PoolValidator(copy.deepcopy(schema), **dict(copy.deepcopy(cfg), allow_unknown=copy.deepcopy(bad_rules)))
+                out2 = "accepted"
+            except cerberus.SchemaError:
+                out2 = "rejected"
+            except Exception as e:
+                out2 = "raise:%s@%s" % (type(e).__name__, vrun.innermost_cerberus_frame(e))
+            if out2 == "accepted":
+                violations.append({"signature": "accepted:%s" % kind, "what": "%s accepted as the constructor's allow_unknown option" % kind, "replay": dict(rp, entry="allow_unknown-constructor")})
+            elif out2 != "rejected":
+                violations.append({"signature": "%s:%s" % (out2, kind.split(":")[0]), "what": "allow_unknown constructor option: %s instead of SchemaError (%s)" % (out2, kind), "replay": dict(rp, entry="allow_unknown-constructor")})
             if out == "accepted":
                 violations.append({"signature": "accepted:%s" % kind, "what": "%s accepted through the allow_unknown setter" % kind, "replay": rp})
             elif out != "rejected":
